@@ -36,6 +36,18 @@ static void one_level(Rng& rng, const Level& lev, const Problem& pb, bool dirbc,
     std::printf("# level %s nr=%d ntheta=%d nsc=%d dirbc=%d cache_coef=%d cache_geom=%d geom=%s coef=%s\n", tag, g.nr(), g.ntheta(),
                 g.numberSmootherCircles(), dirbc, cc, cg, pb.geom_name.c_str(), pb.coef_name.c_str());
     dump_grid_and_coefficients(g, c, dirbc);
+    if (cg) {
+        // K-rhs (C02): weights that setup() multiplies the sampled source term with (discretize_rhs_f on a vector of ones; with a
+        // cached geometry the function reads the level cache only, so any GMGPolar object carries it)
+        static std::unique_ptr<GMGPolar> gmg;
+        if (!gmg) gmg = std::make_unique<GMGPolar>(std::make_unique<CircularGeometry>(1.3), std::make_unique<PoissonCoefficients>(1.3, 0.8),
+                                                   std::unique_ptr<BoundaryConditions>(), std::unique_ptr<SourceTerm>());
+        gmg->DirBC_Interior(dirbc);
+        Vector<double> w(g.numberOfNodes()); for (int i = 0; i < g.numberOfNodes(); i++) w[i] = 1.0;
+        gmgpolar_verif::Access::discretize(*gmg, lev, w);
+        std::printf("RHSW |"); for (int i = 0; i < g.nr(); i++) for (int j = 0; j < g.ntheta(); j++) std::printf(" %s", hx(w[g.index(i, j)]).c_str());
+        std::printf(" => CHECK ok\n");
+    }
     ResidualGive give1(g, c, *pb.geom, *pb.coef, dirbc, 1);
     ResidualGive giveN(g, c, *pb.geom, *pb.coef, dirbc, 3);
     print_rows("give1", g, residual_matrix(give1, g));
